@@ -2,7 +2,7 @@
 import itertools
 import numpy as np
 from mc import dsl
-from mc.norm import observe, attempt, is_refused, norm
+from mc.norm import tap_array, observe, attempt, is_refused, norm
 from mc.checkutil import R, A
 
 PROP = "C08"
@@ -178,8 +178,8 @@ def check(case, acc):
         held_x, held_m = _ra(rows), _ra(mrows, bool)
         nz = ([i for i, r in enumerate(mrows) for j, b in enumerate(r) if b], [j for i, r in enumerate(mrows) for j, b in enumerate(r) if b])
         exp_nz = ("T", (A(nz[0], shape=(len(nz[0]),)), A(nz[1], shape=(len(nz[1]),))))
-        _cmp(acc, "np.nonzero", exp_nz, observe(lambda: np.nonzero(mk())))
-        _cmp(acc, "ra.nonzero()", exp_nz, observe(lambda: mk().nonzero()))
+        _cmp(acc, "np.nonzero", exp_nz, observe(lambda: tap_array(np.nonzero(mk()))))
+        _cmp(acc, "ra.nonzero()", exp_nz, observe(lambda: tap_array(mk().nonzero())))
         y = [[-x for x in r] for r in rows]
         _cmp(acc, "where(mask, x, y)", R([[a if b else c for a, b, c in zip(r, mr, yr)] for r, mr, yr in zip(rows, mrows, y)]),
              observe(lambda: np.where(mk(), _ra(rows), _ra(y))))
